@@ -64,17 +64,19 @@ Proof.
   rewrite rcountL_app, rcnt_regs. cbn [rcountL fold_right]. lia.
 Qed.
 
-Theorem invert_circular_partition r n : 0 <= n -> within n r -> minimize r <> [] ->
+Theorem invert_circular_partition r n : 0 <= n -> within n r ->
   exists out, invert_circular r n = Ok out /\
     forall x, 0 <= x < n -> (countc (minimize r) x + rcountL out x = 1)%nat.
 Proof.
-  intros Hn Hw Hne.
+  intros Hn Hw.
   destruct (invert_linear_partition r n Hn Hw) as [Hpos Hcnt].
   unfold invert_circular, invert_linear.
   set (ss := minimize r) in *. set (inv := invert_segments ss 0 n) in *.
   assert (Hmap : map (fun s => Seg (fst s) (snd s)) inv = map seg_region inv) by reflexivity.
   rewrite Hmap.
-  destruct ss as [|s0 t] eqn:Ess; [contradiction|].
+  destruct ss as [|s0 t] eqn:Ess.
+  { exists (map seg_region inv). split; [reflexivity|]. intros x Hx.
+    rewrite rcountL_segs. specialize (Hcnt x Hx). rewrite countc_app in Hcnt. exact Hcnt. }
   destruct ((fst s0 =? 0) || (snd (last (s0 :: t) s0) =? n)) eqn:Etouch.
   - exists (map seg_region inv). split; [reflexivity|]. intros x Hx.
     rewrite rcountL_segs. specialize (Hcnt x Hx). rewrite countc_app in Hcnt. exact Hcnt.
